@@ -685,6 +685,119 @@ def rule_paren_declarator(chk, prog, tier):
     r.exhaustive = False
 
 
+# ------------------------------------------------------------------ C16.j the blocks of selection and iteration statements
+
+def rule_statement_blocks(chk, prog, tier):
+    r = chk.rule('C16.j', 'a selection or iteration statement is a block strictly inside its enclosing block, and each of its substatements is a block strictly inside that one (6.8.4p3, 6.8.5p5): '
+                 'the controlling expressions (and the for-declaration) are parsed in one scope opened for the statement, every substatement in a scope of its own whose parent is the statement scope - '
+                 'the scope of the first substatement of an if is closed before the else substatement is parsed, so a tag or enumeration constant declared in one branch is not visible in the other - and all of them are closed at the end',
+                 floor=9, oracle='C11 6.8.4p3, 6.8.5p5, 6.2.1p4')
+    fn = prog.require_func('stmt', 'stmt.c')
+    # tokens: E = an expression (consumed by the expr() stub), D = a declaration (consumed by the decl() stub)
+    SHAPES = {
+        'if ( E ) E ;': [('E', 'stmt'), ('E', 'sub1')],
+        'if ( E ) E ; else E ;': [('E', 'stmt'), ('E', 'sub1'), ('E', 'sub2')],
+        'if ( E ) if ( E ) E ; else E ; else E ;': None,      # nested: judged by the generic invariants only
+        'switch ( E ) E ;': [('E', 'stmt'), ('E', 'sub1')],
+        'while ( E ) E ;': [('E', 'stmt'), ('E', 'sub1')],
+        'do E ; while ( E ) ;': [('E', 'sub1'), ('E', 'stmt')],
+        'for ( E ; E ; E ) E ;': [('E', 'stmt'), ('E', 'stmt'), ('E', 'stmt'), ('E', 'sub1')],
+        'for ( D E ; E ) E ;': [('D', 'stmt'), ('E', 'stmt'), ('E', 'stmt'), ('E', 'sub1')],
+        'for ( ; ; ) E ;': [('E', 'sub1')],
+        'while ( E ) if ( E ) E ; else E ;': None,
+    }
+    KW = {'if': 'TIF', 'else': 'TELSE', 'switch': 'TSWITCH', 'while': 'TWHILE', 'do': 'TDO', 'for': 'TFOR', '(': 'TLPAREN', ')': 'TRPAREN', ';': 'TSEMICOLON', 'E': 'TNUMBER', 'D': 'TINT'}
+    for shape, want in SHAPES.items():
+        def runner(it):
+            it.MAX_STEPS = 200000
+            w = World(prog, it=it, target='x86_64-sysv')
+            I = w.t('int')
+            toks = shape.split() + ['EOF']
+            tokobj = it.gobj('tok'); st = {'i': 0, 'n': 0}
+            def cur(): return toks[min(st['i'], len(toks) - 1)]
+            def load():
+                k = cur()
+                tokobj.f[('kind',)] = ev(prog, 'TEOF' if k == 'EOF' else KW[k]); tokobj.f[('lit',)] = None
+                tokobj.f[('loc', 'file')] = None; tokobj.f[('loc', 'line')] = 1; tokobj.f[('loc', 'col')] = 1
+            def nxt(i2, a, e): st['i'] += 1; load(); return None
+            def expect(i2, a, e):
+                if tokobj.f[('kind',)] != a[0]: raise Terminal('error', 'expected token')
+                nxt(i2, a, e); return None
+            def consume(i2, a, e):
+                if tokobj.f[('kind',)] == a[0]: nxt(i2, a, e); return 1
+                return 0
+            def decl(i2, a, e):
+                if cur() != 'D': return 0
+                i2.event('use', 'D', a[0].obj.id); nxt(i2, a, e)
+                if cur() == 'E': pass
+                return 1
+            def expr(i2, a, e):
+                if cur() != 'E': raise Terminal('error', 'expression expected at %s' % cur())
+                i2.event('use', 'E', a[0].obj.id); nxt(i2, a, e)
+                return w.temp(I, 'e%d' % st['i'])
+            def mkscope(i2, a, e):
+                st['n'] += 1
+                o = Obj('scope%d' % st['n'], 'heap'); p = a[0].obj
+                o.f[('parent',)] = a[0]
+                for k in ('breaklabel', 'continuelabel', 'switchcases'): o.f[(k,)] = p.f.get((k,))
+                i2.event('open', o.id, p.id); return Ptr(o, ())
+            def delscope(i2, a, e):
+                i2.event('close', a[0].obj.id); return a[0].obj.f[('parent',)]
+            noop = lambda i2, a, e: None
+            it.models.update({'next': nxt, 'expect': expect, 'consume': consume, 'decl': decl, 'expr': expr, 'mkscope': mkscope, 'delscope': delscope, 'attr': lambda i2, a, e: 0,
+                              'peek': lambda i2, a, e: 0, 'exprpromote': lambda i2, a, e: a[0], 'funcexpr': lambda i2, a, e: Ptr(Obj('value', 'heap'), ()),
+                              'mkblock': lambda i2, a, e: Ptr(Obj('block@%s' % e.get('line'), 'heap'), ()),
+                              'delexpr': noop, 'funcjnz': noop, 'funcjmp': noop, 'funclabel': noop, 'funcswitch': noop,
+                              'error': lambda i2, a, e: (_ for _ in ()).throw(Terminal('error', cmodel.fmt_of(i2, a, 1))),
+                              'fatal': lambda i2, a, e: (_ for _ in ()).throw(Terminal('fatal', cmodel.fmt_of(i2, a, 0)))})
+            load()
+            outer = Obj('outer', 'heap'); outer.f[('parent',)] = Ptr(Obj('filescope', 'heap'), ())
+            for k in ('breaklabel', 'continuelabel', 'switchcases'): outer.f[(k,)] = None
+            it.call(fn, [Ptr(Obj('func', 'heap'), ()), Ptr(outer, ())])
+            return outer.id, [e_ for e_ in it.events if e_[0] in ('use', 'open', 'close')], cur()
+        runs = explore(prog, runner, {}, max_runs=4, on_unsupported='keep')
+        key = 'blocks:%s' % shape
+        if len(runs) != 1 or runs[0].outcome != 'return':
+            raise AnalysisBroken('%s: %s' % (key, [(x.outcome, x.detail) for x in runs][:2]))
+        outer, evs, rest = runs[0].value
+        problems = []
+        parent = {}; live = [outer]; uses = []; closed = set()
+        for e_ in evs:
+            if e_[0] == 'open':
+                if e_[2] != live[-1]: problems.append('a scope is opened inside a scope that is not the innermost open one')
+                parent[e_[1]] = e_[2]; live.append(e_[1])
+            elif e_[0] == 'close':
+                if e_[1] != live[-1] or e_[1] == outer: problems.append('a scope other than the innermost open one is closed'); break
+                live.pop(); closed.add(e_[1])
+            else:
+                if e_[2] != live[-1]: problems.append('%s parsed in a scope that is not the innermost open one' % e_[1])
+                if e_[2] == outer: problems.append('%s of the statement parsed in the enclosing block: the statement is not a block of its own' % ('an expression' if e_[1] == 'E' else 'the declaration'))
+                uses.append((e_[1], e_[2]))
+        if live != [outer]: problems.append('%d scope(s) left open at the end of the statement' % (len(live) - 1))
+        if rest != 'EOF': problems.append('statement not consumed (next token %s)' % rest)
+        if want is not None and not problems:
+            if [u[0] for u in uses] != [x[0] for x in want]: problems.append('parse order %s, expected %s' % ([u[0] for u in uses], [x[0] for x in want]))
+            else:
+                role = {}
+                for (kind, sc), (_, ro) in zip(uses, want):
+                    if ro in role and role[ro] != sc: problems.append('the %s scope is not one scope' % ro)
+                    role.setdefault(ro, sc)
+                if len(set(role.values())) != len(role): problems.append('two of %s share one scope: a declaration in one is visible in the other' % sorted(role))
+                stmt_sc = role.get('stmt') or parent.get(role.get('sub1'))
+                if parent.get(stmt_sc) != outer: problems.append('the statement scope is not a direct child of the enclosing block')
+                for ro in ('sub1', 'sub2'):
+                    if ro in role and parent.get(role[ro]) != stmt_sc: problems.append('the scope of %s is not a child of the statement scope' % ro)
+        elif want is None and not problems:
+            # nested statements: every expression in a scope of its own chain; no two substatement scopes shared is implied by open/close pairing above; require one distinct scope per use that is a leaf use
+            leaf = [sc for k_, sc in uses]
+            n_open = len(parent)
+            n_if = shape.split().count('if') + shape.split().count('while')
+            n_sub = shape.split().count('if') + shape.split().count('else') + shape.split().count('while')
+            if n_open != n_if + n_sub: problems.append('%d scopes opened, expected %d (one per statement and one per substatement)' % (n_open, n_if + n_sub))
+        r.instance(not problems, key, 'stmt.c:stmt', '; '.join(dict.fromkeys(problems)) or 'statement and substatement scopes as 6.8.4p3 / 6.8.5p5 require')
+    r.exhaustive = False
+
+
 def run(chk, tier):
     prog = facts.programs()['cproc-qbe']
     chk.guard('C16.a', lambda: rule_map(chk, prog, tier))
@@ -696,3 +809,4 @@ def run(chk, tier):
     chk.guard('C16.g', lambda: rule_bodyscope(chk, prog, tier))
     chk.guard('C16.h', lambda: rule_typedef_names(chk, prog, tier))
     chk.guard('C16.i', lambda: rule_paren_declarator(chk, prog, tier))
+    chk.guard('C16.j', lambda: rule_statement_blocks(chk, prog, tier))
